@@ -3,6 +3,8 @@ import ApolloModel.Model.ExecValidation
 import ApolloModel.Model.ExecValidationCache
 import ApolloModel.Model.ExecRules
 import ApolloModel.Model.ExpandSelections
+import ApolloModel.Model.ExecValues
+import Driver.D14b
 import ApolloModel.Spec.ExecValidation
 open Apollo Apollo.Proto Apollo.ExecVal
 namespace Driver
@@ -409,6 +411,28 @@ def run (field : String) : String :=
 
 end Exp
 
+
+/-! ### `c17.values` -/
+namespace XVal
+open Apollo.ExecValues Driver.D14b
+
+def varOf (s : String) : Option XVarDef :=
+  match s.splitOn "/" with
+  | [n, t, d] => (tyOf t).map fun t =>
+      { name := n, ty := t, default := if d == "n" then .null else if d == "v" then .nonNullValue else .absent }
+  | _ => none
+
+def run (env vars ty hd v : String) : String :=
+  let envS := String.ofList (decodeField env)
+  let varsS := String.ofList (decodeField vars)
+  match (splitNE envS ";").mapM typeDefOf, (splitNE varsS "+").mapM varOf, tyOf (String.ofList (decodeField ty)), valueOf (String.ofList (decodeField v)) with
+  | some types, some vs, some ty, some v =>
+    let ds := sortStrs ((argValueDiags ⟨types⟩ vs ty (String.ofList (decodeField hd) == "1") v).map XDiag.kindName)
+    if ds.isEmpty then "ok" else ",".intercalate ds
+  | _, _, _, _ => "bad-case"
+
+end XVal
+
 /-- streams of property C17 are named `c17.<name>` -/
 def c17 (stream : String) (fs : List String) : String :=
   match stream, fs with
@@ -437,6 +461,7 @@ def c17 (stream : String) (fs : List String) : String :=
     | some fs => if xingCachedDoc AField.beqList 128 [fs] then "ok" else "conflict"
     | none => "bad-case"
   | "c17.expand", [e] => Exp.run e
+  | "c17.values", [env, vars, ty, hd, v] => XVal.run env vars ty hd v
   | "c17.ops", [sc, d] => Fam.run "c17.ops" sc d
   | "c17.frags", [sc, d] => Fam.run "c17.frags" sc d
   | "c17.fields", [sc, d] => Fam.run "c17.fields" sc d
